@@ -538,16 +538,21 @@ impl TimeSource for FakeTime {
 enum Node {
     Actor(ReplicatedShardHandle),
     State(ReplicatedShardedState<FakeTime>, FakeTime),
+    /// the same node, but the deltas that go on the wire are the ones the shards' bounded outboxes hand out
+    /// (collect_pending_deltas, the path the delta-pulling loops of the maelstrom node and the simulator use), drained after
+    /// every command so that the outbox never overflows
+    Outbox(ReplicatedShardedState<FakeTime>, FakeTime),
 }
 
 impl Node {
     fn spawn(subject: &str, rid: u64, causal: bool) -> Node {
         let level = if causal { ConsistencyLevel::Causal } else { ConsistencyLevel::Eventual };
-        if subject == "state" {
+        if subject == "state" || subject == "outbox" {
             let mut cfg = ReplicationConfig::new_cluster(rid, vec![]);
             cfg.consistency_level = level;
             let t = FakeTime(Arc::new(AtomicU64::new(0)));
-            Node::State(ReplicatedShardedState::with_time_source(cfg, t.clone()), t)
+            let st = ReplicatedShardedState::with_time_source(cfg, t.clone());
+            if subject == "outbox" { Node::Outbox(st, t) } else { Node::State(st, t) }
         } else {
             Node::Actor(ReplicatedShardActor::spawn(ReplicaId::new(rid), level, 0))
         }
@@ -563,18 +568,25 @@ impl Node {
                 let msgs = s.get_gossip_state().map(|g| g.write().drain_outbound()).unwrap_or_default();
                 (r, msgs.into_iter().filter_map(|m| m.message.into_deltas()).flatten().collect())
             }
+            Node::Outbox(s, _) => {
+                let r = s.execute(cmd).await;
+                if let Some(g) = s.get_gossip_state() {
+                    g.write().drain_outbound();
+                }
+                (r, s.collect_pending_deltas().await)
+            }
         }
     }
     fn apply(&self, d: ReplicationDelta) {
         match self {
             Node::Actor(h) => h.apply_remote_delta(d),
-            Node::State(s, _) => s.apply_remote_deltas(vec![d]),
+            Node::State(s, _) | Node::Outbox(s, _) => s.apply_remote_deltas(vec![d]),
         }
     }
     async fn snapshot(&self) -> HashMap<String, ReplicatedValue> {
         match self {
             Node::Actor(h) => h.get_snapshot().await,
-            Node::State(s, _) => s.snapshot_state().await,
+            Node::State(s, _) | Node::Outbox(s, _) => s.snapshot_state().await,
         }
     }
     async fn tick(&self, now: u64) {
@@ -582,7 +594,7 @@ impl Node {
             Node::Actor(h) => {
                 h.evict_expired(VirtualTime::from_millis(now)).await;
             }
-            Node::State(s, t) => {
+            Node::State(s, t) | Node::Outbox(s, t) => {
                 t.0.store(now, Ordering::Relaxed);
                 s.evict_expired_all_shards().await;
             }
@@ -1124,7 +1136,7 @@ fn matrix_cases() -> Vec<(&'static str, Case)> {
             }
         }
     };
-    for subject in ["actor", "state"] {
+    for subject in ["actor", "state", "outbox"] {
         for (_, pr) in priors() {
             for c in alphabet("a", 0, 3) {
                 for at in 0..2usize {
@@ -1276,7 +1288,7 @@ fn gen_random(rng: &mut Rng, rep: &mut Report) -> Case {
     }
     ev.sort_by_key(|e| (e.0, e.1));
     fin.shuffle(rng);
-    Case { subject: if rng.gen_bool(0.3) { "state".into() } else { "actor".into() }, causal: rng.gen_bool(0.25), rids: pool[..n].to_vec(), steps: ev.into_iter().map(|e| e.2).collect(), fin, sim_seed: 0, auto_ae: false, once: rng.gen_bool(0.25), late: false }
+    Case { subject: match rng.gen_range(0..10) { 0..=2 => "state".into(), 3 | 4 => "outbox".into(), _ => "actor".into() }, causal: rng.gen_bool(0.25), rids: pool[..n].to_vec(), steps: ev.into_iter().map(|e| e.2).collect(), fin, sim_seed: 0, auto_ae: false, once: rng.gen_bool(0.25), late: false }
 }
 
 /// One replica is the only hash writer of the key and never learns of the other replicas' whole-key writes (DEL,
@@ -1332,7 +1344,7 @@ fn gen_single_hash_writer(rng: &mut Rng) -> Case {
     }
     ev.sort_by_key(|e| (e.0, e.1));
     fin.shuffle(rng);
-    Case { subject: if rng.gen_bool(0.3) { "state".into() } else { "actor".into() }, causal: false, rids: pool[..n].to_vec(), steps: ev.into_iter().map(|e| e.2).collect(), fin, sim_seed: 0, auto_ae: false, once: rng.gen_bool(0.6), late: false }
+    Case { subject: match rng.gen_range(0..10) { 0..=2 => "state".into(), 3 | 4 => "outbox".into(), _ => "actor".into() }, causal: false, rids: pool[..n].to_vec(), steps: ev.into_iter().map(|e| e.2).collect(), fin, sim_seed: 0, auto_ae: false, once: rng.gen_bool(0.6), late: false }
 }
 
 /// A history for MultiNodeSimulation: SET/DEL mixes with gossip rounds, loss, partitions and anti-entropy.
@@ -1466,7 +1478,7 @@ pub fn converge_leg(args: &Args) {
     let c = |k: &str| rep.counters.get(k).copied().unwrap_or(0);
     if only.is_empty() {
         let mut missing = vec![];
-        for k in ["duplicate_deliveries", "first_delivery_at_quiescence", "runs_with_reordering", "deliveries_held_by_partition", "failing_commands", "type_changes", "ticks", "keys_agreed", "truth:checked", "keys_gone_after_far_tick", "runs:subject:actor", "runs:subject:state", "runs:subject:sim", "sim:anti_entropy_syncs", "sim:partitions", "sim:loss_changes", "sim:gossip_rounds"] {
+        for k in ["duplicate_deliveries", "first_delivery_at_quiescence", "runs_with_reordering", "deliveries_held_by_partition", "failing_commands", "type_changes", "ticks", "keys_agreed", "truth:checked", "keys_gone_after_far_tick", "runs:subject:actor", "runs:subject:state", "runs:subject:outbox", "runs:subject:sim", "sim:anti_entropy_syncs", "sim:partitions", "sim:loss_changes", "sim:gossip_rounds"] {
             if c(k) == 0 {
                 missing.push(k.to_string());
             }
